@@ -8,6 +8,7 @@
  "notes":"per-second sweep contract over the due-time view: exactly the entries due in the swept seconds fire, once, the others keep their due time; an entry scheduled from inside a callback is due at now + max(delay,1)"}
 @*/
 #include "c10_env.h"
+void clear_error_state(void) { }   /* call_out() clears the limit marks after a failed callback (C05) */
 #include <setjmp.h>
 object_t *command_giver; time_t current_time; object_t *current_interactive; svalue_t const0;
 static pending_call_t A, B, N0, N1, N2;   /* separate objects, not an array (see C12) */ static object_t obA, obB, obN; static char fA[] = "fa", fB[] = "fb", fN[] = "fn";
